@@ -305,7 +305,7 @@ func TestC17(t *testing.T) {
 				// foreign request by a client of w against another collection
 				ow := cw.cols[(wi+1+rapid.IntRange(0, len(cw.cols)-2).Draw(rt, "other"))%len(cw.cols)]
 				cl := w.clients[rapid.IntRange(0, len(w.clients)-1).Draw(rt, "fclient")]
-				variant := rapid.SampledFrom([]string{"names-other-collection", "names-other-collection+create", "names-other-collection+subscribe", "foreign-duid-normal", "foreign-duid-subscribe", "foreign-duid-create", "foreign-duid-create+own-operations", "foreign-duid-normal+own-operations", "re-register"}).Draw(rt, "variant")
+				variant := rapid.SampledFrom([]string{"names-other-collection", "names-other-collection+create", "names-other-collection+subscribe", "foreign-duid-normal", "foreign-duid-subscribe", "foreign-duid-create", "foreign-duid-create+own-operations", "foreign-duid-normal+own-operations", "re-register", "sibling-duid-create", "sibling-duid-subscribe"}).Draw(rt, "variant")
 				step(fmt.Sprintf("%s.c%d:foreign(%s -> %s)", w.col, cl.idx, variant, ow.col), func() error {
 					if sharedBoth {
 						foreignAfter = true
@@ -314,6 +314,42 @@ func TestC17(t *testing.T) {
 					before := cw.env.Mongo.DumpCanonical()
 					var refused, timedOut bool
 					var detail, foreignLogBefore string
+					if strings.HasPrefix(variant, "sibling-duid") {
+						// inside the client's OWN collection: a key that does not exist, with the id of another, existing
+						// datatype of that collection (preferably one this client has nothing to do with): operations on
+						// one datatype never change another
+						var victim *l1Key
+						for _, k := range w.keys {
+							if k.duid != "" && (victim == nil || cl.dts[k.Name] == nil) {
+								victim = k
+							}
+						}
+						if victim == nil {
+							return nil
+						}
+						opt := uint32(model.PushPullBitCreate)
+						if variant == "sibling-duid-subscribe" {
+							opt = uint32(model.PushPullBitSubscribe)
+						}
+						req := model.NewPushPullMessage(0, cl.pc.ClientModel(), &model.PushPullPack{Key: fmt.Sprintf("no-such-key-%d", len(canon.String())), DUID: victim.duid,
+							Type: typeOfKind(victim.Kind), CheckPoint: &model.CheckPoint{}, Option: opt})
+						logBefore := logKeys(w, victim.duid)
+						resp, e, to := cw.env.ProcessPushPull(req, l1Deadline)
+						if to {
+							return fmt.Errorf("never answered")
+						}
+						cw.env.WaitBackground(3 * time.Second)
+						if after := logKeys(w, victim.duid); after != logBefore {
+							return fmt.Errorf("a request for a key that does not exist, carrying the id of datatype %s (key %s), changed the log of that datatype:\n  before: %s\n  after:  %s", victim.duid, victim.Name, logBefore, after)
+						}
+						if !refusedPushPull(resp, e) {
+							return fmt.Errorf("a %s request for a key that does not exist, carrying the id of the existing datatype %s (key %s), was accepted", variant, victim.duid, victim.Name)
+						}
+						if after := cw.env.Mongo.DumpCanonical(); after != before {
+							return fmt.Errorf("the refused request (unknown key, id of datatype %s) changed stored data:\n%s", victim.duid, dumpDiff(before, after))
+						}
+						return nil
+					}
 					if variant == "re-register" {
 						m := model.NewClientMessage(cl.pc.ClientModel())
 						m.Collection = ow.col
